@@ -16,10 +16,9 @@ import KyupyVerif.Model.CircObjSub
 * `st:<spec>`                  `c = Circuit.__setstate__(spec)` (start from a given circuit)
 For these four the record starts with `1` or `0<reason>` (`n` node index out of range, `k` kinds, `s` self loop, `g` a pin
 assignment overwrites a line, `f` fork outputs of the result have a gap, `p` a substitution of `resolve` is not a
-well-formed use; `1` = also the structural conditions `substStatic` and `substRegular` or `substOpenOK` (`resolveStatic`)
-hold, `1r` = `substStatic` holds but neither of the two (gap-freeness of the forks was evaluated on the result), `1d` = `substPre`
-holds but `substStatic` does not; `0X` = `substStatic` holds and a pin guard fails, `0Y` = the structural conditions
-hold and the result has a fork gap — both excluded by theorems `substStatic_pre0`, `substStatic_pre`); the operation is applied also when the precondition is false; `<pre>;raise` = the model says the real
+well-formed use; `1` = also the structural condition `substStatic` (`resolveStatic`) holds, `1d` = `substPre` holds but
+`substStatic` does not (`1r` for `resolve`); `0X` = `substStatic` holds and a pin guard fails, `0Y` = `substStatic` holds and
+the result has a fork gap — both excluded by theorems `substStatic_pre0`, `substStatic_pre`); the operation is applied also when the precondition is false; `<pre>;raise` = the model says the real
 code raises (state unchanged).
 
 Answer: one record per operation, separated by ` # `:
@@ -120,10 +119,9 @@ def substReason (c : Circ) (i : Nat) (m : Circ) : String :=
   if !(c.nodes.contains i) then "0n" else if !(substKinds c i m) then "0k" else if !(noSelfLoop c i) then "0s"
   else
     let st := substStatic c i m
-    let rg := substRegular c i m || substOpenOK c i m
     if !(substGuards c i m) then (if st then "0X" else "0g")
-    else if !(substPre c i m) then (if st && rg then "0Y" else "0f")
-    else if st && rg then "1" else if st then "1r" else "1d"
+    else if !(substPre c i m) then (if st then "0Y" else "0f")
+    else if st then "1" else "1d"
 
 def preStr (c : Circ) : Op2 → String
   | .base op => if pre c op then "1" else "0"
